@@ -738,7 +738,7 @@ func ReturnKind(r *ssa.Return, idx int) string {
 	if idx < 0 || idx >= len(r.Results) {
 		return "maybe"
 	}
-	return nilness(r.Results[idx], r, map[ssa.Value]bool{})
+	return nilness(RetVal(r, idx), r, map[ssa.Value]bool{})
 }
 
 func nilness(v ssa.Value, at ssa.Instruction, seen map[ssa.Value]bool) string {
@@ -942,6 +942,19 @@ func WalkBack(v ssa.Value, visit func(ssa.Value) bool) {
 				if s, ok := r.(*ssa.Store); ok && s.Addr == a {
 					walk(s.Val, d+1)
 				}
+				// stores through field/element addresses of the alloc (composite literals)
+				if fa, ok := r.(ssa.Value); ok {
+					switch r.(type) {
+					case *ssa.FieldAddr, *ssa.IndexAddr:
+						if fa.Referrers() != nil {
+							for _, rr := range *fa.Referrers() {
+								if s, ok := rr.(*ssa.Store); ok && s.Addr == fa {
+									walk(s.Val, d+1)
+								}
+							}
+						}
+					}
+				}
 			}
 			return
 		}
@@ -1010,4 +1023,72 @@ func StructFieldValue(v ssa.Value, name string) ssa.Value {
 		return val
 	}
 	return nil
+}
+
+// RejectEdge reports whether every return reachable from the given successor
+// of an If has a definitely non-nil error (or, for functions returning a bool
+// last, the constant false) — i.e. taking the edge rejects.
+func RejectEdge(iff *ssa.If, branch bool) bool {
+	b := iff.Block()
+	succ := b.Succs[1]
+	if branch {
+		succ = b.Succs[0]
+	}
+	fn := iff.Parent()
+	idx := ErrIndex(fn)
+	any := false
+	for blk := range reach(succ, nil, nil) {
+		if len(blk.Instrs) == 0 {
+			continue
+		}
+		r, ok := blk.Instrs[len(blk.Instrs)-1].(*ssa.Return)
+		if !ok {
+			continue
+		}
+		any = true
+		if idx >= 0 {
+			if ReturnKind(r, idx) != "nonnil" {
+				return false
+			}
+			continue
+		}
+		// boolean result: must be constant false
+		if len(r.Results) == 0 {
+			return false
+		}
+		bv, isB := ConstBool(RetVal(r, len(r.Results)-1))
+		if !isB || bv {
+			return false
+		}
+	}
+	return any
+}
+
+// RetVal returns the i-th result of a return, looking through the spill that
+// go/ssa inserts in functions with defers (*res = v; rundefers; t = *res;
+// return t): the value stored in the same block is returned.
+func RetVal(r *ssa.Return, i int) ssa.Value {
+	if i < 0 || i >= len(r.Results) {
+		return nil
+	}
+	v := r.Results[i]
+	u, ok := v.(*ssa.UnOp)
+	if !ok || u.Op != token.MUL {
+		return v
+	}
+	a, ok := u.X.(*ssa.Alloc)
+	if !ok {
+		return v
+	}
+	instrs := r.Block().Instrs
+	for k := len(instrs) - 1; k >= 0; k-- {
+		if st, ok := instrs[k].(*ssa.Store); ok && st.Addr == ssa.Value(a) {
+			return st.Val
+		}
+	}
+	// stored in a dominating block: unique store overall
+	if s := singleStore(a); s != nil {
+		return s
+	}
+	return v
 }
